@@ -360,11 +360,15 @@ def wire_rate_oracle(ops, out, endpoints=(0, 1)):
         ceiling = cfg[e]["bw"]
         if ceiling < 1472:
             continue
-        pts = []   # (now_ms, bytes emitted at this flush, rtt_ms estimate or 0)
+        # flushes that emitted something: (now_ms, bytes emitted, largest rtt_ms estimate since the previous such flush).
+        # Intervals that start or end at a flush which emitted nothing are dominated by the ones kept here (same bytes,
+        # shorter time), so they are not enumerated.
+        pts = []
         now = 0
         rtt_cur = 0        # estimate shown by the latest dump
         rtt_fill = 0       # estimate in force when the latest step() refilled the credit: step() caps the credit with
                            # the estimate it had on entry and only then folds the new feedback into the estimate
+        gap = 0
         for (t, info, term) in ev:
             if endpoint_of(t) != e:
                 continue
@@ -376,7 +380,10 @@ def wire_rate_oracle(ops, out, endpoints=(0, 1)):
                 rtt_cur = int(st["rttms"]) if st["rttms"] != "-" else 0
             if t[0] == "flush":
                 b = sum(int(l.split()[1]) for l in info if l.startswith("frame "))
-                pts.append((now, b, max(rtt_cur, rtt_fill)))
+                gap = max(gap, rtt_cur, rtt_fill)
+                if b > 0:
+                    pts.append((now, b, gap))
+                    gap = 0
         for i in range(len(pts)):
             acc = 0
             rttmax = 0
